@@ -68,18 +68,31 @@ def wire(o):
     return o
 
 
+def coq_gop(o):
+    """the same op for the runner of the GENERATED model (Ring/RingGenRun.v): the `_mut` accessors are routed
+    to the generated `_mut` methods"""
+    if o[0] == "slicesmut":
+        return "GSlicesMut"
+    if o[0] == "mapslices":
+        return f"GMapSlices {F.zlit(o[1])}"
+    return f"G ({coq_op(o)})"
+
+
 def build(item, ops=None):
     it = dict(item)
     if ops is not None:
         it["ops"] = ops
     ops_txt = " , ".join(" ".join(str(t) for t in wire(o)) for o in it["ops"])
     ops_coq = "[" + "; ".join(coq_op(o) for o in it["ops"]) + "]"
+    gops_coq = "[" + "; ".join(coq_gop(o) for o in it["ops"]) + "]"
     if it["kind"] == "B":
         it["line"] = f"B {it['store']} {it['start']} {it['len']} {' '.join(map(str, it['data']))} ; {ops_txt}"
         it["coq"] = f"BCase {F.zlit(it['start'])} {F.zlit(it['len'])} {F.zlist(it['data'])} {ops_coq}"
+        it["gcoq"] = f"GBCase {F.zlit(it['start'])} {F.zlit(it['len'])} {F.zlist(it['data'])} {gops_coq}"
     else:
         it["line"] = f"F {it['store']} {it['first']} {' '.join(map(str, it['data']))} ; {ops_txt}"
         it["coq"] = f"FCase {F.zlit(it['first'])} {F.zlist(it['data'])} {ops_coq}"
+        it["gcoq"] = f"GFCase {F.zlit(it['first'])} {F.zlist(it['data'])} {gops_coq}"
     return it
 
 
@@ -342,7 +355,7 @@ def gen_search(rep, binpath, items, outl, broken):
     small = lambda it: all(not (o[0] in INDEX_OPS and o[1] > 4096) for o in it["ops"])
     keep = [i for i, it in enumerate(items) if small(it)]
     items, outl = [items[i] for i in keep], [outl[i] for i in keep]
-    terms = [f"({it['coq']}, {F.zlistlist(F.norm_obs_line(o))})" for it, o in zip(items, outl)]
+    terms = [f"({it['gcoq']}, {F.zlistlist(F.norm_obs_line(o))})" for it, o in zip(items, outl)]
     bad_any, e1 = F.coq_check_cases("c06_gen", GEN_HEADER, "both_gen", terms)
     if e1:
         return None, None, "the regenerated model could not be evaluated: " + str(e1[0])[:600]
@@ -362,12 +375,12 @@ def gen_search(rep, binpath, items, outl, broken):
             rc, o, _ = F.run_bin(binpath, [c["line"]])
             if rc != 0 or len(o) != 1:
                 return False
-            b, e = F.coq_check_cases("c06_gen_shrink", GEN_HEADER, fn, [f"({c['coq']}, {F.zlistlist(F.norm_obs_line(o[0]))})"])
+            b, e = F.coq_check_cases("c06_gen_shrink", GEN_HEADER, fn, [f"({c['gcoq']}, {F.zlistlist(F.norm_obs_line(o[0]))})"])
             return bool(b) and not e
 
         small = F.shrink_ops(it, build, fails)
         rc, out, _ = F.run_bin(binpath, [small["line"]])
-        _, gmodel = F.coq_eval("c06", GEN_HEADER, f"gen_run_case ({small['coq']})")
+        _, gmodel = F.coq_eval("c06", GEN_HEADER, f"gen_run_case ({small['gcoq']})")
         _, hmodel = F.coq_eval("c06", GEN_HEADER, f"run_case ({small['coq']})")
         rep.violation(f"generated_vs_{tag}_case{idx}", {
             "kind": f"the model regenerated from {RING_SRC} disagrees with {what} on this case "
@@ -472,6 +485,13 @@ def main(rep, tier, seed):
                      + (", and so does the regenerated model" if search.get("generated_vs_crate_failing") == 0 else ""),
                 search=search, **broken), no_input=True)
         info["search"] = search
+    elif tier == "thorough" and not errors and not bad:
+        # the search tool itself is exercised while nothing is broken: the runner of the generated model
+        # (Ring/RingGenRun.v, `_mut` operations routed to the generated `_mut` methods) must agree everywhere
+        nc, nh, note = gen_search(rep, binpath, items, outl, dict(stage="none", message="self-test of the generated-model runner: the equivalence is proved, yet the runner of the generated model disagrees (fault in Ring/RingGenRun.v or lib/props/c06.py)"))
+        info["generated_runner_self_test"] = dict(generated_vs_crate_failing=nc, generated_vs_hand_failing=nh, note=note)
+        if note:
+            rep.violation("generated_runner", {"kind": "the runner of the generated model could not be evaluated", "log": note}, no_input=True)
     dist = {"ops_histogram": hist, "exhaustive_small_state_cases": n_exh, "random_histories": len(items) - n_exh - len(corpus),
             "corpus_cases": len(corpus), "panic_observations": panics, "profiles": ["dev (model compared)", "release (diffed against dev)", "relchk (diffed against dev)"], "profile_differences": len(pdiffs)}
     samples = [items[i]["line"] for i in (0, n_exh // 2, len(items) - 1)]
@@ -488,6 +508,7 @@ def finish(rep, info, n, nontriv, dist, samples, bad=()):
                                            "modelled, not verified: Rust slices as lists, &mut [T] as an (offset, length) range and &mut T as an index into self.data, mem::replace/ptr::read/ptr::write as list updates; the caller-side glue of Ring/RingGenGlue.v (store through a returned reference, visiting an IterMut, draining); usize as nat in the refinement theorems and in the generated model, with the 64-bit reading of every index addition proved free of overflow in valid states for indices up to usize::MAX (c06_index_arith_no_overflow), slice lengths assumed <= 2^63 (true of every non-zero-sized element type)"],
         "theorems": th, "axioms_reported": info.get("axioms", []),
         "translator": info.get("translator", {}), "translator_tie_broken": info.get("broken"), "search": info.get("search"),
+        "generated_runner_self_test": info.get("generated_runner_self_test"),
         "evaluations": n, "distinct_nontrivial": nontriv,
         "rule": "every raw (start,len)/(first) state of capacities 0..6 (quick) x each operation followed by a full observation sweep, plus random histories (1500 quick) from random raw states over 5 storage kinds (Vec, Box<[T]>, &mut [T], [T; N], Vec with spare capacity); non-trivial = an evicting push or a wrapped slice pair occurs (Bounded), first != 0 (Fixed)",
         "samples": samples, "input_distribution": dist, "disagreements": len(bad),
@@ -518,12 +539,12 @@ def replay(path):
             print("translator:", terr)
             return 1
         okb, logb = F.coq_make("theories/Ring/RingGenRun.vo")
-        _, gmodel = F.coq_eval("c06", GEN_HEADER, f"gen_run_case ({it['coq']})")
+        _, gmodel = F.coq_eval("c06", GEN_HEADER, f"gen_run_case ({it['gcoq']})")
         _, hmodel = F.coq_eval("c06", GEN_HEADER, f"run_case ({it['coq']})")
         print("generated model:", gmodel)
         print("hand model:", hmodel)
         fn = "agree_gen" if j.get("against") == "hand" else "check_gen"
-        bad, errs = F.coq_check_cases("c06_replay", GEN_HEADER, fn, [f"({it['coq']}, {F.zlistlist(F.norm_obs_line(out[0]))})"])
+        bad, errs = F.coq_check_cases("c06_replay", GEN_HEADER, fn, [f"({it['gcoq']}, {F.zlistlist(F.norm_obs_line(out[0]))})"])
     else:
         _, model = F.coq_eval("c06", HEADER, f"run_case ({it['coq']})")
         print("model:", model)
